@@ -34,7 +34,7 @@ class C24(Property):
     drivers = ["Drivers/C24.lean"]
     translators = [cmdtmpl.generate]
     quick_budget_s = 600
-    op_timeout = 12
+    op_timeout = 25
     rule = ("random trees (names with blanks, quotes, $, backticks, glob characters, unicode, leading dashes, newlines; symlinks; contents with "
             "leading/trailing whitespace) are created twice; random sequences of the 16 path operations are executed through LocalStreamFlowPath on "
             "one copy and through RemoteStreamFlowPath over a persistent-sh connector (MiniConnector) on the other; after every operation the "
